@@ -11,4 +11,11 @@ func propC11(c *Ctx, r *Report) {
 	c.runScopePerBlock(r, "scope.perblock", lowerScopeSpec)
 	r.floor("pairing.pushScope/popScope", 5)
 	r.floor("scope.bodies", 8)
+	r.Clauses = append(r.Clauses,
+		"no silent expectation (E10): no parser helper that expects a token kind can fail without returning or recording an error",
+		"no dropped diagnostic (E10): no call on the parse / lower / validate path discards an error or *ParseError result")
+	c.runErrflow(r, inPkgs("wgsl", "ir", "naga", "internal/registry"), droppedErrExceptions)
+	r.floor("errflow.parser-functions", 40)
 }
+
+var droppedErrExceptions = map[string]string{}
